@@ -38,6 +38,9 @@ CONSTANTS Syms,        \* symbol names, e.g. {"a","b","c"}
           MaxLen,      \* statements per program
           Cyclic,      \* TRUE: every definition graph; FALSE: acyclic graphs only (config A)
           Inject,      \* TRUE: one arbitrary exception may be raised at any point of evaluation
+          Fault,       \* "none"; or a deliberately broken engine, to show that the properties can fail:
+                       \* "depth-leak" (TryCompute.__exit__ forgets depth -= 1 on NotReadyError),
+                       \* "stack-leak" (Awaiting.__exit__ forgets the pop when an exception passes)
           MaxHeap, MaxStk, MaxMag    \* divergence bounds (see Exceeded)
 
 VARIABLES prog, phase, cont, symtab, symorder, addr, chunks, heap, depth, astack, stk, ret, exc,
@@ -330,9 +333,11 @@ Exec ==
                     [E EXCEPT !.ret = None, !.stk = SetTop([Accumulate(F, ret, F.items[F.i][2]) EXCEPT !.pc = 3, !.i = F.i + 1])]
 
 Unwind ==       \* an exception passes through the top frame: what its __exit__ does (pc = 0: not entered yet)
-    CASE F.op = "ow" /\ F.pc > 0 -> [E EXCEPT !.heap[F.id].aw = FALSE, !.astack = APop, !.stk = Pop]      \* Awaiting.__exit__
+    CASE F.op = "ow" /\ F.pc > 0 -> [E EXCEPT !.heap[F.id].aw = FALSE, !.stk = Pop,                       \* Awaiting.__exit__
+                                              !.astack = IF Fault = "stack-leak" THEN astack ELSE APop]
       [] F.op = "cn" /\ F.pc > 0 -> IF exc = "NotReady"                                                    \* TryCompute.__exit__
-                        THEN [E EXCEPT !.depth = depth - 1, !.stk = Pop, !.exc = "none", !.ret = Ref(F.id)]
+                        THEN [E EXCEPT !.depth = IF Fault = "depth-leak" THEN depth ELSE depth - 1,
+                                       !.stk = Pop, !.exc = "none", !.ret = Ref(F.id)]
                         ELSE [E EXCEPT !.depth = depth - 1, !.stk = Pop]
       [] F.op = "lp" /\ F.pc = 1 ->
                         IF exc = "NotReady"          \* swallowed: the key stays what it was
